@@ -551,6 +551,7 @@ func (f *Frame) run(args []Val, state *State, guard string) ([]Val, *State, stri
 	f.analyzeLoops()
 	f.prescan()
 	f.initDeferFlags()
+	f.initLastCalls()
 	order := f.rpo()
 	for _, b := range order {
 		if b == fn.Recover {
